@@ -348,7 +348,7 @@ def single_thread_prefetch(
                 data_queue.put(item)
                 if shutdown:
                     return
-        except Exception:
+        except BaseException:
             # Save the exception and reraise it in the main thread
             nonlocal exc_info
             # https://stackoverflow.com/a/1854263/5766934
